@@ -10,11 +10,11 @@
    "classifies every sub-expression of the query (other   C16_classified_once   (no premise needed)
     than range bounds and the term inside a
     fuzzy/proximity) exactly once"
-   "as matching precisely when it evaluates to true       C16_matching_iff_true  — refuted for
-    under boolean semantics: AND all, OR any, implicit     operations with zero operands evaluated
-    operation the configured default, NOT and -            with `all` (C16_matching_iff_true_refuted),
-    negation, every other construct the value of its       proved under the guard no_empty_all
-    operand"                                               (C16_matching_iff_true_partial)
+   "as matching precisely when it evaluates to true       C16_matching_iff_true  — in full (no guard:
+    under boolean semantics: AND all, OR any, implicit     since /repo 831a694 an operation with zero
+    operation the configured default, NOT and -            operands is any([]) / all([]) like any other;
+    negation, every other construct the value of its       regression: C16_empty_operations_boolean and
+    operand"                                               the examples on the former witnesses)
    "Given, for each named element, whether the term it    premise `reported sigma t matching other`
     covers matched ... whenever no negation lies           (PropagateSpec.v)
     strictly between a named element and the term it
@@ -24,7 +24,9 @@
    mechanism "names to matching / other path sets"        C16_matching_from_names, C16_named_elements
    all of it together with the C15 names                  C16_end_to_end
    results of earlier calls stay valid (one instance,     C16_calls_independent (pure model) + the
-    many calls)                                            call-history oracle of harness/c16.py *)
+    many calls)                                            call-history oracle of harness/c16.py
+   (C16_matching_iff_true_partial: the former guarded statement, now a corollary, kept so that
+    references to it stay valid.  The same conclusion under the wider premise: props/C16w.v) *)
 Require Import Base Decimal Tree GenTree GenVisitors GenNaming Visitor Naming TreeInd
                NamingProofs Propagate PropagateSpec PropagateProofs.
 
@@ -59,10 +61,10 @@ Definition C16_matching_iff_true_statement : Prop :=
     propagate d matching other t = (ok, ko) ->
     matching_iff_true d sigma t ok ko.
 
-(* guard: no operation evaluated with `all` (AndOperation, BoolOperation, UnknownOperation when
-   the default is not OrOperation) has zero operands.  Such a node is `all([]) = True` under
-   boolean semantics but the code, having no operand status to combine, falls back to
-   _status_from_parent and classifies it as non matching. *)
+(* the former guarded statement (guard: no operation evaluated with `all` has zero operands).
+   Before /repo 831a694 such a node — `all([]) = True` under boolean semantics — had no operand
+   status to combine, fell back to _status_from_parent and was classified as non matching.  Now a
+   corollary of C16_matching_iff_true. *)
 Definition C16_matching_iff_true_partial_statement : Prop :=
   forall d sigma t matching other ok ko,
     no_empty_all (dflt_or d) t ->
@@ -86,18 +88,30 @@ Definition C16_named_elements_statement : Prop :=
     matching_from_names names m = Some (matching, other) ->
     forall q, In q (matching ++ other) <-> exists nm, name_at t' q = Some nm.
 
+(* regression clause for the repaired defect: an operation with ZERO operands is classified from
+   its own kind alone — matching iff it is an all-operation (AndOperation, BoolOperation, an
+   implicit operation when the default is not OrOperation), i.e. iff all([]) / any([]) is true —
+   whatever matching / other say about the elements around it (no premise at all).  Only its own
+   path being in `matching` overrides this (then it is matching, like any node). *)
+Definition C16_empty_operations_boolean_statement : Prop :=
+  forall d t matching other ok ko r k m,
+    propagate d matching other t = (ok, ko) ->
+    subexpr_at t r = Some (Op k m []) ->
+    (In r ok <-> In r matching \/ or_like (dflt_or d) k = false) /\
+    (In r ko <-> ~ In r matching /\ or_like (dflt_or d) k = true) /\
+    (forall sigma, ev (dflt_or d) sigma (Op k m []) r = negb (or_like (dflt_or d) k)).
+
 (* end to end with the names of auto_name (C15): when the engine reports exactly the named
    elements whose covered term is true (`report`, PropagateSpec.v), propagation computes the truth
    value of every sub-expression — provided every named element is a sub-expression (no
-   operation inside a range / fuzzy / proximity), no negation lies strictly between a reported
-   element and its term, and the guard above *)
+   operation inside a range / fuzzy / proximity) and no negation lies strictly between a reported
+   element and its term *)
 Definition C16_end_to_end_statement : Prop :=
   forall d sigma t t' m ok ko,
     auto_name t = Some (t', m) ->
     (forall q, In q (map snd m) -> classified t q) ->
     (forall q n, In q (map snd m) -> subexpr_at t q = Some n -> elem_true sigma t q = true ->
                  neg_between n = false) ->
-    no_empty_all (dflt_or d) t ->
     propagate d (fst (report sigma t (map snd m))) (snd (report sigma t (map snd m))) t = (ok, ko) ->
     matching_iff_true d sigma t ok ko.
 
@@ -125,12 +139,23 @@ Proof. intros d t M O ok ko H. exact (propagate_partition d M O t ok ko H). Qed.
 Theorem C16_subexpressions_are_paths : C16_subexpressions_are_paths_statement.
 Proof. intros t p n. exact (subexpr_at_subtree p t n). Qed.
 
-Theorem C16_matching_iff_true_partial : C16_matching_iff_true_partial_statement.
+Theorem C16_matching_iff_true : C16_matching_iff_true_statement.
 Proof.
-  intros d sigma t M O ok ko Hne Hrep H.
-  pose proof (reported_good d M O sigma t Hrep Hne) as Hg. split.
+  intros d sigma t M O ok ko Hrep H.
+  pose proof (reported_good d M O sigma t Hrep) as Hg. split.
   - exact (propagate_status d M O sigma t ok ko Hg H).
   - exact (propagate_status_ko d M O sigma t ok ko Hg H).
+Qed.
+
+Theorem C16_matching_iff_true_partial : C16_matching_iff_true_partial_statement.
+Proof. intros d sigma t M O ok ko _ Hrep H. exact (C16_matching_iff_true d sigma t M O ok ko Hrep H). Qed.
+
+Theorem C16_empty_operations_boolean : C16_empty_operations_boolean_statement.
+Proof.
+  intros d t M O ok ko r k m H Hs.
+  destruct (propagate_empty_operation d M O t ok ko r k m H Hs) as [Hok Hko].
+  split; [exact Hok|]. split; [exact Hko|].
+  intros sigma. simpl. destruct (or_like (dflt_or d) k); reflexivity.
 Qed.
 
 Theorem C16_matching_from_names : C16_matching_from_names_statement.
@@ -152,24 +177,93 @@ Qed.
 
 Theorem C16_end_to_end : C16_end_to_end_statement.
 Proof.
-  intros d sigma t t' m ok ko Ha Hcl Hneg Hne H.
-  exact (C16_matching_iff_true_partial d sigma t _ _ ok ko Hne
+  intros d sigma t t' m ok ko Ha Hcl Hneg H.
+  exact (C16_matching_iff_true d sigma t _ _ ok ko
            (auto_name_reported sigma t t' m Ha Hcl Hneg) H).
 Qed.
 
-(* ---- refutation of the unguarded statement: AndOperation() (no operand), named at the root,
-   not reported.  Boolean semantics: all([]) = true; the code: non matching.
-   Replayed on the real code:  MatchingPropagator()(AndOperation(), set(), {()}) == (set(), {()}) *)
+(* ---- regression on the former witnesses of the defect repaired in /repo 831a694 (they refuted
+   the unguarded statement of the model of the old code: C16_matching_iff_true_refuted, and in
+   props/C16w.v C16w_old_guard_refuted / C16w_guard_necessary).  On each the classification is now
+   the boolean evaluation, computed here independently by `ev` over all sub-expressions. *)
 Definition empty_and : item := Op KAnd meta0 [].
 
-Theorem C16_matching_iff_true_refuted : ~ C16_matching_iff_true_statement.
+(* the two result sets according to boolean evaluation (pre-order) *)
+Definition ev_sets (d : cls) (sigma : path -> bool) (t : item) : list path * list path :=
+  (map fst (filter (fun qn => ev (dflt_or d) sigma (snd qn) (fst qn)) (cnodes t [])),
+   map fst (filter (fun qn => negb (ev (dflt_or d) sigma (snd qn) (fst qn))) (cnodes t []))).
+Definition same_set (a b : list path) : bool :=
+  forallb (fun p => mem_path p b) a && forallb (fun p => mem_path p a) b.
+Definition same_sets (x y : list path * list path) : bool :=
+  same_set (fst x) (fst y) && same_set (snd x) (snd y).
+
+(* AndOperation() — all([]) = True.  Old code: MatchingPropagator(OrOperation)(AndOperation(), set(),
+   set()) == (set(), {()}) (likewise with other = {()}, the name of auto_name not reported).
+   Replayed on the repaired code: == ({()}, set()) for both. *)
+Example C16_regression_empty_and :
+  reported (fun _ => true) empty_and [] [[]] /\
+  propagate COrOperation [] [] empty_and = ([[]], []) /\
+  propagate COrOperation [] [[]] empty_and = ([[]], []) /\
+  propagate CAndOperation [] [[]] empty_and = ([[]], []) /\
+  ev_sets COrOperation (fun _ => true) empty_and = ([[]], []).
 Proof.
-  intros H.
-  assert (Hrep : reported (fun _ => true) empty_and [] [[]]).
-  { apply reported_b_sound. vm_compute. reflexivity. }
-  destruct (H COrOperation (fun _ => true) empty_and [] [[]] [] [[]] Hrep eq_refl) as [Hok _].
-  apply (proj2 (Hok [])). exists empty_and. split; reflexivity.
+  split; [apply reported_b_sound; vm_compute; reflexivity|].
+  repeat split; vm_compute; reflexivity.
 Qed.
+
+(* every kind of zero-operand operation at the root, both defaults, named and not reported *)
+Example C16_regression_empty_kinds :
+  propagate COrOperation [] [[]] (Op KOr meta0 []) = ([], [[]]) /\
+  propagate COrOperation [] [[]] (Op KUnknown meta0 []) = ([], [[]]) /\
+  propagate CAndOperation [] [[]] (Op KUnknown meta0 []) = ([[]], []) /\
+  propagate COrOperation [] [[]] (Op KBool meta0 []) = ([[]], []) /\
+  propagate CAndOperation [] [[]] (Op KOr meta0 []) = ([], [[]]).
+Proof. repeat split; vm_compute; reflexivity. Qed.
+
+(* a AND (AndOperation()), names of auto_name a -> [0], b -> [1] (the group); a matches: everything
+   is true.  Old code: paths_ok == {(0,)} only.
+   Replayed on the repaired code:  MatchingPropagator(OrOperation)(AndOperation(Word('a'),
+     Group(AndOperation())), {(0,)}, {(1,)}) == ({(0,), (1, 0), (1,), ()}, set()) *)
+Definition and_group_empty_and : item :=
+  Op KAnd meta0 [Term KWord meta0 [97%N]; Grp KGroup meta0 (Op KAnd meta0 [])].
+
+Example C16_regression_and_group_empty_and :
+  (exists t' m, auto_name and_group_empty_and = Some (t', m) /\
+     report (fun _ => true) and_group_empty_and (map snd m) = ([[0]], [[1]])) /\
+  reported (fun _ => true) and_group_empty_and [[0]] [[1]] /\
+  ~ no_empty_all true and_group_empty_and /\
+  propagate COrOperation [[0]] [[1]] and_group_empty_and = ([[0]; [1; 0]; [1]; []], []) /\
+  same_sets (propagate COrOperation [[0]] [[1]] and_group_empty_and)
+            (ev_sets COrOperation (fun _ => true) and_group_empty_and) = true.
+Proof.
+  split; [eexists; eexists; split; vm_compute; reflexivity|].
+  split; [apply reported_b_sound; vm_compute; reflexivity|].
+  split; [intros H; specialize (H [1; 0] KAnd meta0 eq_refl); discriminate|].
+  split; vm_compute; reflexivity.
+Qed.
+
+(* NOT NOT OrOperation(), the root reported as matching (matching = {()}: outside the narrow premise,
+   inside the wide one, see props/C16w.v).  Old code: ({(0, 0)}, {(0,), ()}) — the empty OR inherited
+   True from the root.  Repaired code: any([]) = False, so (0,) is true and () false:
+     MatchingPropagator(OrOperation)(Not(Not(OrOperation())), {()}, set()) == ({(0,)}, {(0, 0), ()}) *)
+Definition not_not_or : item := Unary KNot meta0 (Unary KNot meta0 (Op KOr meta0 [])).
+
+Example C16_regression_not_not_or :
+  propagate COrOperation [[]] [] not_not_or = ([[0]], [[0; 0]; []]) /\
+  same_sets (propagate COrOperation [[]] [] not_not_or)
+            (ev_sets COrOperation (fun _ => true) not_not_or) = true.
+Proof. split; vm_compute; reflexivity. Qed.
+
+(* a OR OrOperation(), the root and `a` reported as matching.  Old code: ({(0,), (1,), ()}, set()).
+   Repaired code:  MatchingPropagator(OrOperation)(OrOperation(Word('a'), OrOperation()),
+     {(), (0,)}, set()) == ({(0,), ()}, {(1,)}) *)
+Definition or_empty : item := Op KOr meta0 [Term KWord meta0 [97%N]; Op KOr meta0 []].
+
+Example C16_regression_or_empty :
+  propagate COrOperation [[]; [0]] [] or_empty = ([[0]; []], [[1]]) /\
+  same_sets (propagate COrOperation [[]; [0]] [] or_empty)
+            (ev_sets COrOperation (fun _ => true) or_empty) = true.
+Proof. split; vm_compute; reflexivity. Qed.
 
 (* ---- non-vacuity.  The query  (a AND (b OR -c)) f:(x y)  named by the C15 model of auto_name;
    a, c, x match; the names reported are those of a, -c and x. *)
@@ -229,8 +323,9 @@ Qed.
 
 Print Assumptions C16_classified_once.
 Print Assumptions C16_subexpressions_are_paths.
+Print Assumptions C16_matching_iff_true.
 Print Assumptions C16_matching_iff_true_partial.
-Print Assumptions C16_matching_iff_true_refuted.
+Print Assumptions C16_empty_operations_boolean.
 Print Assumptions C16_matching_from_names.
 Print Assumptions C16_named_elements.
 Print Assumptions C16_end_to_end.
